@@ -10,13 +10,13 @@ Import Base(outcome, Ok).
 (* compound assignments                                                *)
 (* ------------------------------------------------------------------ *)
 Lemma expected_statement_sem {N V} `{EqDecision N, EqDecision V}
-    (bop : binop -> V -> V -> V) (num : nat -> V) (s : cstmt N) (st : store N V) :
-  exec_stmt bop num (expected_statement s) st = exec_stmt bop num s st.
+    (bop : binop -> V -> V -> V) (num : nat -> V) (fld : N -> V) (s : cstmt N) (st : store N V) :
+  exec_stmt bop num fld (expected_statement s) st = exec_stmt bop num fld s st.
 Proof. destruct s; reflexivity. Qed.
 
 Lemma parse_substitution_sem {N V} `{EqDecision N, EqDecision V}
-    (bop : binop -> V -> V -> V) (num : nat -> V) (s : cstmt N) (st : store N V) :
-  exec_stmt bop num (parse_substitution s) st = exec_stmt bop num s st.
+    (bop : binop -> V -> V -> V) (num : nat -> V) (fld : N -> V) (s : cstmt N) (st : store N V) :
+  exec_stmt bop num fld (parse_substitution s) st = exec_stmt bop num fld s st.
 Proof. destruct s; reflexivity. Qed.
 
 (* the specification's expansion and the mirror of ast_shortcuts.rs are the same
@@ -30,8 +30,8 @@ Proof. destruct s; reflexivity. Qed.
    another constant, the assignment means something else *)
 Lemma swapped_operands_differ :
   exists (bop : binop -> nat -> nat -> nat) (num : nat -> nat) (st : store nat nat) (e : ex nat),
-    exec_stmt bop num (CAssign 0 [] (EInfix Sub e (EVar 0 []))) st 0 []
-    <> exec_stmt bop num (COpAssign Sub 0 [] e) st 0 [].
+    exec_stmt bop num (fun _ => 0) (CAssign 0 [] (EInfix Sub e (EVar 0 []))) st 0 []
+    <> exec_stmt bop num (fun _ => 0) (COpAssign Sub 0 [] e) st 0 [].
 Proof.
   exists (fun op a b => match op with Sub => a - b | _ => 0 end), (fun n => n), (fun _ _ => 5), (ENum 3).
   vm_compute. discriminate.
@@ -39,8 +39,8 @@ Qed.
 
 Lemma plus_two_differs :
   exists (bop : binop -> nat -> nat -> nat) (num : nat -> nat) (st : store nat nat),
-    exec_stmt bop num (CAssign 0 [] (EInfix Add (EVar 0 []) (ENum 2))) st 0 []
-    <> exec_stmt bop num (CInc 0 []) st 0 [].
+    exec_stmt bop num (fun _ => 0) (CAssign 0 [] (EInfix Add (EVar 0 []) (ENum 2))) st 0 []
+    <> exec_stmt bop num (fun _ => 0) (CInc 0 []) st 0 [].
 Proof.
   exists (fun op a b => match op with Add => a + b | _ => 0 end), (fun n => n), (fun _ _ => 5).
   vm_compute. discriminate.
